@@ -477,9 +477,19 @@ func main() {
 			// replay the minimised file in a fresh process: must fail the same way
 			out, code = runCmd(5*time.Minute, worker, "-replay", min)
 			if code != 1 {
-				fmt.Fprintf(os.Stderr, "%s\n", out)
-				infraNotes = append(infraNotes, fmt.Sprintf("minimised replay of class %q does not reproduce exactly (exit %d)", class, code))
-				continue
+				// the minimised scenario failed inside the shrinking process but not
+				// in a fresh one: the code under test keeps state across runs of one
+				// process (a package-level variable), which the shrinker's many
+				// candidate runs accumulate.  The unminimised failure was found by a
+				// search worker too, so it gets the same fresh-process confirmation.
+				fmt.Fprintf(os.Stderr, "check: the minimised replay of class %q does not reproduce in a fresh process (exit %d); trying the unminimised failure\n", class, code)
+				rout, rcode := runCmd(10*time.Minute, worker, "-replay", f, "-out", min)
+				if rcode != 1 {
+					fmt.Fprintf(os.Stderr, "%s\n%s\n", out, rout)
+					infraNotes = append(infraNotes, fmt.Sprintf("neither the minimised nor the unminimised failure of class %q reproduces in a fresh process (exit %d / %d): state carried across runs or simulator nondeterminism, not a confirmed property violation", class, code, rcode))
+					continue
+				}
+				shrinkNotes = append(shrinkNotes, fmt.Sprintf("class %s: minimised scenario not stable across processes, unminimised replay confirmed", class))
 			}
 		} else {
 			// minimisation failed or ran out of time (e.g. every candidate runs into
